@@ -74,6 +74,28 @@ theorem rtx_temporal (XO : XOracles) (opts : DeserOpts) (ty fmt : String) (ints 
   · simp [deserX, PyVal.isNone, dTemporal, hp]
   · simp [validateX, vTemporal, hk]
 
+theorem rtx_enumName (XO : XOracles) (opts : DeserOpts) (cls : String) (ms : List (String × PyVal))
+    (mx : Bool) (v : PyVal) (h : xFrag XO (.enumName cls ms mx) v = true) :
+    RTX XO opts (.enumName cls ms mx) v := by
+  cases v <;> simp [xFrag] at h
+  rename_i c n
+  obtain ⟨hc, hm⟩ := h
+  subst hc
+  have hcont : (ms.map (·.1)).contains n = true := by simpa using hm
+  refine ⟨.str n, ?_, rfl, rfl, ?_, ?_⟩
+  · simp [serX, sEnumName]
+  · simp only [deserX, PyVal.isNone, Bool.false_and, Bool.false_eq_true, if_false, dEnumName, hcont, if_true]
+  · simp only [validateX, vEnumVal, hcont, beq_self_eq_true, Bool.and_self, if_true]
+
+theorem rtx_fmtStr (XO : XOracles) (opts : DeserOpts) (kind : String) (strict : Bool) (v : PyVal)
+    (h : xFrag XO (.fmtStr kind strict) v = true) : RTX XO opts (.fmtStr kind strict) v := by
+  cases v <;> simp [xFrag] at h
+  rename_i s
+  refine ⟨.str s, ?_, rfl, rfl, ?_, ?_⟩
+  · simp [serX, sScalar]
+  · simp [deserX, PyVal.isNone, dFmtStr]
+  · simp [validateX, vFmtStr, h]
+
 /-! ### a declaration that refuses None -/
 
 theorem c05_noNone_deser (XO : XOracles) (opts : DeserOpts) (x : XDecl) (h : xNoNone x = true) :
@@ -98,6 +120,10 @@ theorem c05_noNone_deser (XO : XOracles) (opts : DeserOpts) (x : XDecl) (h : xNo
       simpa using this
     simp [deserX, PyVal.isNone, dEnumVal, unhashable, xFindByValue, hf]
   | temporal ty fmt ints => exact ⟨.typeErr, by simp [deserX, PyVal.isNone, dTemporal], rfl⟩
+  | enumName cls ms mx =>
+    simp only [xNoNone, Bool.not_eq_true'] at h
+    exact ⟨.valueErr, by simp [deserX, PyVal.isNone, dEnumName, dValidated, vEnumVal, h], rfl⟩
+  | fmtStr kind strict => exact ⟨.typeErr, by simp [deserX, PyVal.isNone, dFmtStr], rfl⟩
   | opt x => simp [xNoNone] at h
   | seqOf k x => exact ⟨.valueErr, by simp [deserX, PyVal.isNone, dSeq, docSeq], rfl⟩
   | setOf x => exact ⟨.valueErr, by simp [deserX, PyVal.isNone, dSeq, docSeq], rfl⟩
@@ -121,6 +147,10 @@ theorem c05_noNone_validate (XO : XOracles) (x : XDecl) (h : xNoNone x = true) :
     simp only [xNoNone, Bool.not_eq_true'] at h
     exact ⟨.valueErr, by simp [validateX, vEnumVal, h], rfl⟩
   | temporal ty fmt ints => exact ⟨.typeErr, by simp [validateX, vTemporal, dTemporal], rfl⟩
+  | enumName cls ms mx =>
+    simp only [xNoNone, Bool.not_eq_true'] at h
+    exact ⟨.valueErr, by simp [validateX, vEnumVal, h], rfl⟩
+  | fmtStr kind strict => exact ⟨.typeErr, by simp [validateX, vFmtStr], rfl⟩
   | opt x => simp [xNoNone] at h
   | seqOf k x => exact ⟨.typeErr, by cases k <;> simp [validateX, vSeq, seqElems], rfl⟩
   | setOf x => exact ⟨.typeErr, by simp [validateX, vSet], rfl⟩
@@ -327,6 +357,8 @@ theorem xround_trip (XO : XOracles) (opts : DeserOpts) : ∀ (x : XDecl) (v : Py
   | .decimal o, v, h => rtx_decimal XO opts o v h
   | .enumVal cls ms mx, v, h => rtx_enumVal XO opts cls ms mx v h
   | .temporal ty fmt ints, v, h => rtx_temporal XO opts ty fmt ints v h
+  | .enumName cls ms mx, v, h => rtx_enumName XO opts cls ms mx v h
+  | .fmtStr kind strict, v, h => rtx_fmtStr XO opts kind strict v h
   | .opt x, v, h => by
     simp only [xFrag] at h
     by_cases hn : v.isNone = true
@@ -378,11 +410,11 @@ theorem xround_trip (XO : XOracles) (opts : DeserOpts) : ∀ (x : XDecl) (v : Py
     | dict kvs =>
       simp only [and_true_iff] at h
       obtain ⟨hdist, hall⟩ := h
-      have hpt : ∀ kv ∈ kvs, (∃ k, kv.1 = .str k) ∧ RTX XO { opts with keepUndefined := true } x kv.2 := by
+      have hpt : ∀ kv ∈ kvs, (∃ k, kv.1 = .str k) ∧ RTX XO opts x kv.2 := by
         intro kv hkv
         exact ⟨c05_strKeys_str kvs hdist kv hkv,
-          xround_trip XO { opts with keepUndefined := true } x kv.2 ((List.all_eq_true.mp hall) kv hkv)⟩
-      rcases RTX_pairs XO { opts with keepUndefined := true } x kvs hpt with ⟨r, g1, g2, g3, g4, g5⟩
+          xround_trip XO opts x kv.2 ((List.all_eq_true.mp hall) kv hkv)⟩
+      rcases RTX_pairs XO opts x kvs hpt with ⟨r, g1, g2, g3, g4, g5⟩
       have hrd : strKeysDistinct r = true := by rw [strKeysDistinct_keys r kvs g3]; exact hdist
       refine ⟨.dict r, ?_, by simp [isJson, g2], rfl, ?_, ?_⟩
       · simp only [serX, sMap, g1]
